@@ -172,6 +172,8 @@ def _fl_dims(rule):
         # runtime size of the symbolic axes: the declared one, or 0
         Dim("rt", ["as-declared", "zero"]),
         Dim("dtype", ["f32"], ["f32", "i64"]),
+        # a second Flatten of the same input with another axis in the same graph
+        Dim("twin", ["no", "axis0", "axis2"], cost=1),
         S.D_VI, S.d_opset(18, 13, 21, 23),
     ]
 
@@ -216,10 +218,17 @@ def _fl_build(p, rule):
     mb.bindings = binds
     attrs = {} if p["axis"] == "absent" else {"axis": _fl_axis(p)}
     mb.out(mb.node("Flatten", [x], **attrs))
+    if p["twin"] != "no":
+        a2 = {"axis0": 0, "axis2": 2}[p["twin"]]
+        if a2 > len(xs):
+            raise Skip("twin axis out of range")
+        mb.out(mb.node("Flatten", [x], axis=a2))
     return mb
 
 
 def _fl_klass(nd, p, rule):
+    if "twin" in nd and set(nd) <= {"twin", "axis", "xshape"}:
+        return "twin=second-Flatten-of-same-input"
     if 0 in p["xshape"] and set(nd) <= {"xshape", "axis", "sym", "symstyle"}:
         return "xshape=static-size0-dim"
     if nd.get("rt") == "zero":
@@ -230,6 +239,8 @@ def _fl_klass(nd, p, rule):
 
 def _fl_spec(p, rule):
     from vf.props import c05_np
+    if p["twin"] != "no":
+        return None
     return lambda fd: [c05_np.flatten(fd["x"], _fl_axis(p))]
 
 
@@ -316,9 +327,10 @@ def _ss_dims(rule):
         Dim("e0", ["h", "h+1", "h-1"]),
         Dim("b1", ["=e0", "h"]),
         Dim("e1", ["d", "d+1", "MAX", "d-1"]),
-        Dim("order", ["10", "01"]),   # node order in the graph: the matcher only anchors on the [0:h] slice when it comes last
-        Dim("form", ["4in", "5in-steps1", "3in"]),
-        Dim("dtype", ["f32"], ["f32", "i64"]),
+        # node order in the graph: the matcher only anchors on the [0:h] slice when it comes last
+        Dim("order", ["10", "01"], cost=1),
+        Dim("form", ["4in", "5in-steps1", "3in"], cost=1),
+        Dim("dtype", ["f32", "i64"], cost=1),
         S.d_ck(6), S.D_DIMS, S.D_VI, S.d_opset(18, 13, 21, 23),
     ]
 
@@ -371,7 +383,8 @@ def _ss_near(p, rule):
         or S.is_nonconst(p) or p["xshape"][-1] % 2 == 1
 
 
-S.register(Space("slice_split", _ss_dims, _ss_build, near=_ss_near, prune=_ss_prune), rule_ids=["slice_split_rule"])
+S.register(Space("slice_split", _ss_dims, _ss_build, near=_ss_near, prune=_ss_prune, max_dev={"thorough": 1}),
+           rule_ids=["slice_split_rule"])
 
 
 # -- Transpose(x, identity perm) -> Identity ; Transpose(Transpose(x, p1), p2) -> Transpose/Identity -----
@@ -609,10 +622,10 @@ def _scd_dims(rule):
         Dim("td", ["transpose", "data", "other-same", "other-diff"]),
         Dim("reduction", ["none", "absent", "add"]),
         Dim("shape_attrs", ["start0", "absent", "start0-end", "start1"]),
-        Dim("range", ["0,1", "1,1", "0,2"]),
-        Dim("unsq", ["[-1]", "[1]"]),
-        Dim("dtype", ["f32"], ["f32", "i64"]),
-        Dim("square", ["no", "yes"]),
+        Dim("range", ["0,1", "1,1", "0,2"], cost=1),
+        Dim("unsq", ["[-1]", "[1]"], cost=1),
+        Dim("dtype", ["f32", "i64"], cost=1),
+        Dim("square", ["no", "yes"], cost=1),
         S.d_ck(1), S.D_DIMS, S.D_VI, S.d_opset(18, 16, 21, 23),
     ]
 
@@ -648,7 +661,7 @@ def _scd_build(p, rule):
         tds = [dim + 2, 4]
         td = mb.inp("other", p["dtype"], S.shp(p, tds, sym_axes=(0,), names=("Q",)))
         mb.bindings[0]["Q"] = dim + 2
-    ush = list(tds)
+    ush = [dim] + list(tds[1:])      # updates cover the index range [0, dim) of transposed_data's first axis
     upd = mb.inp("upd", p["dtype"], ush)
     attrs = {} if p["reduction"] == "absent" else {"reduction": p["reduction"]}
     mb.out(mb.node("ScatterND", [td, idx, upd], **attrs))
